@@ -450,8 +450,19 @@ fn rewrite_trees() -> Vec<Entry> {
     }
     t4.insert("a", Entry::file(lcg(1, 100), T0 + 1));
     v.push(t4);
+    // names differing from the patterns (and from their neighbours) in letter case only: the
+    // case-sensitive ways of passing a pattern must leave them, the case-insensitive ones take them
+    let mut t5 = t.clone();
+    t5.insert("A", Entry::file(lcg(11, 30), T0 + 10));
+    t5.insert("B.X", Entry::file(lcg(12, 30), T0 + 10));
+    t5.insert("D/keep2", Entry::file(lcg(13, 30), T0 + 10));
+    t5.insert("d/Other.X", Entry::file(lcg(14, 30), T0 + 10));
+    v.push(t5);
     v
 }
+
+/// the four ways of handing a pattern to the library
+const VIA: [&str; 4] = ["globs", "iglobs", "glob_files", "iglob_files"];
 
 const GLOBS: [&str; 6] = ["!/r/a", "!/r/d/*", "!*.x", "!/r/d", "!/r/p/sub/secret", "!/r/q/sub/secret"];
 
@@ -481,14 +492,19 @@ fn part_rewrite(rep: &mut Report, args: &Args) {
     let mut idx = 0usize;
     for (ti, t) in trees.iter().enumerate() {
         for set in &sets {
-            for forget in [false, true] {
+            for (forget, via) in [(false, 0usize), (true, 0), (false, 1), (true, 1), (false, 2), (false, 3)] {
                 idx += 1;
                 if !args.mine(idx) {
                     continue;
                 }
+                if via > 0 && set.is_empty() {
+                    continue;
+                }
+                let ci = via % 2 == 1;
                 rep.inc("executions");
                 rep.inc("rewrite_cases");
-                let case = json!({"part": "rewrite", "tree": ti, "globs": set, "forget": forget});
+                rep.inc(&format!("rewrite_via:{}", VIA[via]));
+                let case = json!({"part": "rewrite", "tree": ti, "globs": set, "forget": forget, "via": VIA[via]});
                 let r = (|| -> Result<(), (String, String)> {
                     let env = Env::single();
                     _ = es("init", env.init_with(tiny_config(2)))?;
@@ -498,15 +514,28 @@ fn part_rewrite(rep: &mut Report, args: &Args) {
                     let full = es("open", env.open_full())?;
                     let snaps = es("snapshots", full.get_all_snapshots())?;
                     let mut topts = RewriteTreesOptions::default();
-                    topts.excludes.globs = set.iter().map(ToString::to_string).collect();
-                    let out = es("rewrite", full.rewrite_snapshots_and_trees(snaps, &RewriteOptions::default().forget(forget), &topts))?;
+                    let pats: Vec<String> = set.iter().map(ToString::to_string).collect();
+                    let file = std::env::temp_dir().join(format!("verif-c12-{}-{idx}.glob", std::process::id()));
+                    match via {
+                        0 => topts.excludes.globs = pats,
+                        1 => topts.excludes.iglobs = pats,
+                        _ => {
+                            std::fs::write(&file, pats.join("\n") + "\n").expect("scratch glob file (machinery)");
+                            let f = vec![file.to_string_lossy().to_string()];
+                            if via == 2 { topts.excludes.glob_files = f } else { topts.excludes.iglob_files = f }
+                        }
+                    }
+                    let out = full.rewrite_snapshots_and_trees(snaps, &RewriteOptions::default().forget(forget), &topts);
+                    _ = std::fs::remove_file(&file);
+                    let out = es("rewrite", out)?;
                     rep.inc("transitions");
                     // expected content
                     let mut want = LTree::new();
                     for (p, n) in &orig {
                         let ps = String::from_utf8_lossy(p).to_string();
                         let rel = ps.strip_prefix("r/").unwrap_or("");
-                        if !rel.is_empty() && set.iter().any(|g| excluded(g, rel)) {
+                        let rel_cmp = if ci { rel.to_lowercase() } else { rel.to_string() };
+                        if !rel.is_empty() && set.iter().any(|g| excluded(g, &rel_cmp)) {
                             continue;
                         }
                         _ = want.insert(p.clone(), n.clone());
@@ -534,7 +563,7 @@ fn part_rewrite(rep: &mut Report, args: &Args) {
                             return Err(("C12/rewrite/unchanged".into(), "a rewrite that excludes nothing changed the content of a snapshot".into()));
                         }
                     }
-                    _ = rep.distinct("state", &(ti, set, forget));
+                    _ = rep.distinct("state", &(ti, set, forget, via));
                     Ok(())
                 })();
                 if let Err((sig, msg)) = r {
